@@ -13,6 +13,8 @@ from __future__ import annotations
 import ast
 
 from harness.common import TranslateError, src_text
+from translate import c15_norm
+from translate.c15_norm import seq as _seq
 
 # expression on the writing side -> field name(s)
 SAVE_FIELD = {
@@ -25,7 +27,7 @@ SAVE_FIELD = {
     'self._low_res.width': ['low_width'], 'self._low_res.height': ['low_height'],
     'self.depth': ['depth'], 'res_count': ['num_resources'],
     "getattr(res_id, 'value', res_id)": ['res_id'], 'res_id': ['res_id'],
-    'res.flags & ~2': ['res_flags_offset'], 'res.flags | 2': ['res_flags_inline'], 'res.data': ['res_data'],
+    'res.data': ['res_data'],
     'ResourceID.LOW_RES.value': ['id_low_res'], 'ResourceID.HIGH_RES.value': ['id_high_res'],
     'ResourceID.PARTICLE_SHEET.value': ['id_particle'],
     'len(res.data)': ['block_len'], 'len(particle_data)': ['block_len'],
@@ -65,22 +67,69 @@ def _const_str(node: ast.expr) -> str | None:
     return None
 
 
-def _header_fmt(tree: ast.Module) -> str:
-    for st in tree.body:
-        if isinstance(st, ast.Assign) and ast.unparse(st.targets[0]) == '_HEADER':
-            v = st.value
-            if isinstance(v, ast.Call) and ast.unparse(v.func) == 'struct.Struct' and len(v.args) == 1 and _const_str(v.args[0]) is not None:
-                return _const_str(v.args[0]).replace(' ', '')
-            _err(st, '_HEADER is not struct.Struct(<literal>)')
-    raise TranslateError('_HEADER not found')
+# ---- resource flag expressions: tiny language over the flags of the resource, given to Coq as a tree and judged there
+# SEMANTICALLY (complete enumeration of the byte domain), so `f & ~2`, `f & 0xFD`, `(f | 2) ^ 2` are the same thing.
+FLAG_VARS = ('res.flags', 'resource.flags', 'res_flags')
 
 
-def _fields_of_args(args: list[ast.expr], node, header: bool = False) -> list[str]:
+def _flag_expr(node: ast.expr) -> str | None:
+    """Coq fexpr of an integer expression over the resource's flags, or None when it is not one."""
+    s = ast.unparse(node)
+    if s in FLAG_VARS:
+        return 'FVar'
+    if isinstance(node, ast.Constant) and type(node.value) is int:
+        return f'(FConst ({node.value}))'
+    if isinstance(node, ast.UnaryOp) and isinstance(node.op, ast.Invert):
+        a = _flag_expr(node.operand)
+        return None if a is None else f'(FNot {a})'
+    if isinstance(node, ast.BinOp) and type(node.op) in (ast.BitAnd, ast.BitOr, ast.BitXor):
+        a, b = _flag_expr(node.left), _flag_expr(node.right)
+        if a is None or b is None:
+            return None
+        return f'({ {ast.BitAnd: "FAnd", ast.BitOr: "FOr", ast.BitXor: "FXor"}[type(node.op)]} {a} {b})'
+    return None
+
+
+def _mentions_flags(node: ast.expr) -> bool:
+    return any(ast.unparse(n) in FLAG_VARS for n in ast.walk(node) if isinstance(n, (ast.Attribute, ast.Name)))
+
+
+def _flag_test(test: ast.expr) -> str | None:
+    """Coq ftest (true = "the data is elsewhere in the file") of the reader's condition, or None."""
+    if isinstance(test, ast.UnaryOp) and isinstance(test.op, ast.Not):
+        e = _flag_expr(test.operand)
+        if e is not None:
+            return f'(TIsZero {e})'
+        t = _flag_test(test.operand)
+        return None if t is None else f'(TNot {t})'
+    if isinstance(test, ast.Compare) and len(test.ops) == 1 and type(test.ops[0]) in (ast.Eq, ast.NotEq):
+        a, b = _flag_expr(test.left), _flag_expr(test.comparators[0])
+        if a is None or b is None:
+            return None
+        t = f'(TEq {a} {b})'
+        return t if isinstance(test.ops[0], ast.Eq) else f'(TNot {t})'
+    e = _flag_expr(test)
+    if e is not None:
+        return f'(TNot (TIsZero {e}))'
+    return None
+
+
+def _fields_of_args(args: list[ast.expr], node, site: dict) -> list[str]:
     out: list[str] = []
+    header = any(ast.unparse(a) == 'self.width' for a in args)
     for a in args:
         s = ast.unparse(a)
-        if s == '0' and not header:
-            out.append('zero_flags')
+        if isinstance(a, ast.Constant) and type(a.value) is int and not header:
+            out.append('res_flags')
+            site['flag_expr'] = _flag_expr(a)
+            site['flag_const'] = True
+            continue
+        if _mentions_flags(a):
+            e = _flag_expr(a)
+            if e is None:
+                _err(node, f'expression over the resource flags not understood: {s}')
+            out.append('res_flags')
+            site['flag_expr'] = e
             continue
         if s not in SAVE_FIELD:
             _err(node, f'value written to the file is not a known field: {s}')
@@ -99,8 +148,9 @@ def _targets(t: ast.expr, node) -> list[str]:
     return out
 
 
-def _sites(fn: ast.FunctionDef, header_fmt: str) -> list[dict]:
-    """pack / unpack / defer / set_data / pad sites of one function in source order."""
+def _sites(fn: ast.FunctionDef) -> list[dict]:
+    """pack / unpack / defer / set_data / pad / other-write sites of one function in execution (source) order.
+    The tree is normalised (c15_norm): precompiled struct.Struct constants appear as struct.pack/unpack with the format."""
     sites: list[dict] = []
 
     class V(ast.NodeVisitor):
@@ -108,20 +158,16 @@ def _sites(fn: ast.FunctionDef, header_fmt: str) -> list[dict]:
             v = st.value
             if isinstance(v, ast.Call):
                 f = ast.unparse(v.func)
-                if f in ('struct.unpack', 'struct.unpack_from', '_HEADER.unpack'):
-                    if f == '_HEADER.unpack':
-                        fmt, rd = header_fmt, v.args[0]
-                        n = 'header' if ast.unparse(rd) == 'file.read(_HEADER.size)' else None
-                        if n is None:
-                            _err(st, 'header read length')
-                        sites.append({'k': 'unpack', 'fmt': fmt, 'len': -1, 'fields': _targets(st.targets[0], st), 'line': st.lineno})
-                    elif f == 'struct.unpack':
+                if f in ('struct.unpack', 'struct.unpack_from'):
+                    if v.keywords:
+                        _err(st, f'{f} with keyword arguments')
+                    if f == 'struct.unpack':
                         fmt = _const_str(v.args[0])
                         rd = v.args[1]
                         if fmt is None or not (isinstance(rd, ast.Call) and ast.unparse(rd.func) == 'file.read' and len(rd.args) == 1
                                                and isinstance(rd.args[0], ast.Constant) and type(rd.args[0].value) is int):
                             _err(st, f'struct.unpack site not understood: {ast.unparse(v)}')
-                        sites.append({'k': 'unpack', 'fmt': fmt, 'len': rd.args[0].value, 'fields': _targets(st.targets[0], st), 'line': st.lineno})
+                        sites.append({'k': 'unpack', 'fmt': fmt, 'len': rd.args[0].value, 'fields': _targets(st.targets[0], st), 'line': st.lineno, 'seq': _seq(st)})
                     else:
                         fmt = _const_str(v.args[0])
                         if fmt is None:
@@ -134,7 +180,7 @@ def _sites(fn: ast.FunctionDef, header_fmt: str) -> list[dict]:
                             fields = list(TEX_ATTRS)
                         else:
                             fields = _targets(tg, st)
-                        sites.append({'k': 'unpack_from', 'fmt': fmt, 'off': off, 'fields': fields, 'line': st.lineno})
+                        sites.append({'k': 'unpack_from', 'fmt': fmt, 'off': off, 'fields': fields, 'line': st.lineno, 'seq': _seq(st)})
                     return
             self.generic_visit(st)
 
@@ -142,34 +188,103 @@ def _sites(fn: ast.FunctionDef, header_fmt: str) -> list[dict]:
             f = ast.unparse(c.func)
             if f == 'struct.pack':
                 fmt = _const_str(c.args[0])
-                if fmt is None:
+                if fmt is None or c.keywords:
                     _err(c, 'struct.pack format is not a literal')
-                sites.append({'k': 'pack', 'fmt': fmt, 'fields': _fields_of_args(c.args[1:], c), 'line': c.lineno})
-                return
-            if f == '_HEADER.pack':
-                sites.append({'k': 'pack', 'fmt': header_fmt, 'fields': _fields_of_args(c.args, c, True), 'line': c.lineno})
+                site = {'k': 'pack', 'fmt': fmt, 'line': c.lineno, 'seq': _seq(c)}
+                site['fields'] = _fields_of_args(c.args[1:], c, site)
+                sites.append(site)
                 return
             if f == 'deferred.defer':
-                fmt = _const_str(c.args[1])
+                fmt = _const_str(c.args[1]) if len(c.args) > 1 else None
                 wr = any(k.arg == 'write' and isinstance(k.value, ast.Constant) and k.value.value is True for k in c.keywords)
+                if len(c.args) > 2 and isinstance(c.args[2], ast.Constant) and c.args[2].value is True:
+                    wr = True
                 if fmt is None:
                     _err(c, 'defer format')
-                sites.append({'k': 'defer', 'key': ast.unparse(c.args[0]), 'fmt': fmt, 'write': wr, 'line': c.lineno})
+                sites.append({'k': 'defer', 'key': ast.unparse(c.args[0]), 'fmt': fmt, 'write': wr, 'line': c.lineno, 'seq': _seq(c)})
                 return
             if f == 'deferred.set_data':
-                sites.append({'k': 'set_data', 'key': ast.unparse(c.args[0]), 'value': ast.unparse(c.args[1]), 'line': c.lineno})
+                sites.append({'k': 'set_data', 'key': ast.unparse(c.args[0]), 'value': ast.unparse(c.args[1]), 'line': c.lineno, 'seq': _seq(c)})
                 return
-            if f == 'file.write' and len(c.args) == 1 and isinstance(c.args[0], ast.Call) and ast.unparse(c.args[0].func) == 'bytes' \
-                    and len(c.args[0].args) == 1 and isinstance(c.args[0].args[0], ast.Constant):
-                sites.append({'k': 'pad', 'n': c.args[0].args[0].value, 'line': c.lineno})
-                return
-            if f in ('struct.unpack', 'struct.unpack_from', '_HEADER.unpack'):
+            if f == 'file.write' and len(c.args) == 1:
+                a = c.args[0]
+                if isinstance(a, ast.Call) and ast.unparse(a.func) == 'bytes' and len(a.args) == 1 and isinstance(a.args[0], ast.Constant):
+                    sites.append({'k': 'pad', 'n': a.args[0].value, 'line': c.lineno, 'seq': _seq(c)})
+                    return
+                if not (isinstance(a, ast.Call) and ast.unparse(a.func) == 'struct.pack'):
+                    sites.append({'k': 'write', 'what': ast.unparse(a), 'line': c.lineno, 'seq': _seq(c)})
+            if f in ('struct.unpack', 'struct.unpack_from', 'struct.iter_unpack', 'struct.pack_into'):
                 _err(c, f'{f} whose result is not assigned to names')
             self.generic_visit(c)
 
     V().visit(fn)
-    sites.sort(key=lambda s: s['line'])
+    sites.sort(key=lambda s: s['seq'])
     return sites
+
+
+def _loop_depths(fn: ast.FunctionDef) -> dict[int, int]:
+    """_seq of every node -> number of loops whose BODY contains it"""
+    d: dict[int, int] = {}
+
+    def go(node, depth):
+        d[_seq(node)] = depth
+        if isinstance(node, (ast.For, ast.AsyncFor, ast.While)):
+            for fld in ('target', 'iter', 'test'):
+                ch = getattr(node, fld, None)
+                if ch is not None:
+                    go(ch, depth)
+            for st in node.body:
+                go(st, depth + 1)
+            for st in node.orelse:
+                go(st, depth)
+            return
+        for ch in ast.iter_child_nodes(node):
+            go(ch, depth)
+    go(fn, 0)
+    return d
+
+
+def _event_key(text_or_node) -> str:
+    """'low_res' -> low_res;  ('res', res_id) -> res   (the name of the loop variable does not matter)"""
+    try:
+        node = ast.parse(text_or_node, mode='eval').body if isinstance(text_or_node, str) else text_or_node
+    except SyntaxError:
+        return str(text_or_node)
+    if isinstance(node, ast.Constant) and isinstance(node.value, str):
+        return node.value
+    if isinstance(node, ast.Tuple) and node.elts and isinstance(node.elts[0], ast.Constant) and isinstance(node.elts[0].value, str):
+        return node.elts[0].value
+    return ast.unparse(node)
+
+
+def _save_events(fn: ast.FunctionDef, sites: list[dict]) -> list[str]:
+    """the file-writing events of save() in execution order as Coq terms of type sev (Fmt/VtfWholeFile.v)"""
+    depth = _loop_depths(fn)
+    out = []
+    for st in sites:
+        k = st['k']
+        if k == 'pack':
+            out.append(f'SvPack {_sl(st["fields"])}')
+        elif k == 'defer':
+            out.append(f'SvDefer {_s(_event_key(st["key"]))}')
+        elif k == 'set_data':
+            if st['value'] != 'file.tell()':
+                raise TranslateError(f'vtf.py line {st["line"]}: deferred.set_data with a value that is not file.tell()')
+            out.append(f'SvSet {_s(_event_key(st["key"]))}')
+        elif k == 'pad':
+            out.append(f'SvPad {st["n"]}%Z')
+        elif k == 'write':
+            try:
+                v = ast.parse(st['what'], mode='eval').body
+            except SyntaxError:
+                v = None
+            if isinstance(v, ast.Constant) and isinstance(v.value, bytes):
+                out.append('SvConst')
+            else:
+                out.append(f'SvWrite {depth.get(st["seq"], 0)}')
+        else:
+            raise TranslateError(f'vtf.py line {st["line"]}: event {k} in save() not understood')
+    return out
 
 
 def _one(sites, pred, what, node=None):
@@ -185,7 +300,7 @@ def _version_guards(fn: ast.FunctionDef) -> list[tuple[str, int]]:
         if isinstance(n, ast.If) and isinstance(n.test, ast.Compare) and ast.unparse(n.test.left) == 'version_minor' \
                 and len(n.test.ops) == 1 and isinstance(n.test.comparators[0], ast.Constant):
             op = {ast.GtE: '>=', ast.Gt: '>', ast.Lt: '<', ast.LtE: '<=', ast.Eq: '==', ast.NotEq: '!='}[type(n.test.ops[0])]
-            out.append((op, n.test.comparators[0].value, n.lineno))
+            out.append((op, n.test.comparators[0].value, _seq(n)))
     out.sort(key=lambda t: t[2])
     return [(a, b) for a, b, _ in out]
 
@@ -194,20 +309,20 @@ TEX_ATTRS: list[str] = []
 
 
 def container_info() -> dict:
-    tree = ast.parse(src_text('vtf.py'))
+    tree = c15_norm.normalised_tree(src_text('vtf.py'))
     tc = next((n for n in tree.body if isinstance(n, ast.ClassDef) and n.name == 'TexCoord'), None)
     if tc is None:
         raise TranslateError('class TexCoord not found')
     TEX_ATTRS[:] = [st.target.id for st in tc.body if isinstance(st, ast.AnnAssign) and isinstance(st.target, ast.Name)]
-    hf = _header_fmt(tree)
     cls = {n.name: n for n in tree.body if isinstance(n, ast.ClassDef)}
     for need in ('VTF', 'TexCoord', 'SheetSequence'):
         if need not in cls:
             raise TranslateError(f'class {need} not found')
     meth = lambda c, m: next((n for n in cls[c].body if isinstance(n, ast.FunctionDef) and n.name == m), None) or (_ for _ in ()).throw(TranslateError(f'{c}.{m} not found'))
     save, read = meth('VTF', 'save'), meth('VTF', 'read')
-    ss, rs = _sites(save, hf), _sites(read, hf)
-    info: dict = {'header_fmt': hf, 'save_sites': ss, 'read_sites': rs}
+    ss, rs = _sites(save), _sites(read)
+    info: dict = {'save_sites': ss, 'read_sites': rs}
+    info['save_fn'] = save
     P = lambda fmt: (lambda s: s['k'] == 'pack' and s['fmt'] == fmt)
     U = lambda fmt: (lambda s: s['k'] in ('unpack', 'unpack_from') and s['fmt'].lstrip('<') == fmt.lstrip('<'))
     pairs = {}
@@ -220,9 +335,15 @@ def container_info() -> dict:
     pairs['res_count'] = (_one(ss, lambda s: s['k'] == 'pack' and s['fields'] == ['num_resources'], 'save resource count'),
                           _one(rs, lambda s: s['k'] == 'unpack' and s['fields'] == ['num_resources'], 'read resource count'))
     entry_r = _one(rs, lambda s: s['k'] == 'unpack' and 'res_id' in s['fields'], 'read directory entry')
-    inline_w = _one(ss, lambda s: s['k'] == 'pack' and 'res_flags_inline' in s['fields'], 'save inline entry')
-    off_w = _one(ss, lambda s: s['k'] == 'pack' and 'res_flags_offset' in s['fields'], 'save offset entry')
+    inline_w = _one(ss, lambda s: s['k'] == 'pack' and 'res_flags' in s['fields'] and 'res_data' in s['fields'], 'save inline entry')
+    off_w = _one(ss, lambda s: s['k'] == 'pack' and 'res_flags' in s['fields'] and 'res_data' not in s['fields']
+                 and s['fields'][:1] == ['res_id'], 'save offset entry')
     fixed_w = [s for s in ss if s['k'] == 'pack' and s['fields'] and s['fields'][0].startswith('id_')]
+    for s_ in [inline_w, off_w] + fixed_w:
+        if s_.get('flag_expr') is None:
+            raise TranslateError(f'vtf.py line {s_["line"]}: directory entry without a flags value')
+    if inline_w.get('flag_const') or off_w.get('flag_const'):
+        pass    # a constant is a legal (if lossy) flag expression; Coq judges it
     blk_w = [s for s in ss if s['k'] == 'pack' and s['fields'] == ['block_len']]
     blk_r = _one(rs, lambda s: s['k'] == 'unpack' and s['fields'] == ['block_len'], 'read block length')
     if not blk_w:
@@ -230,8 +351,9 @@ def container_info() -> dict:
     # every <3sB entry without a value is directly followed by a deferred 4-byte slot that is written
     defers = [s for s in ss if s['k'] == 'defer']
     def followed(s):
-        nxt = [d for d in defers if d['line'] > s['line']]
-        return bool(nxt) and nxt[0]['line'] - s['line'] <= 1 and nxt[0]['write'] and nxt[0]['fmt']
+        # the next thing save() does to the file after writing the 4-byte id+flags is the deferred slot
+        nxt = [d for d in ss if d['seq'] > s['seq'] and d['k'] in ('pack', 'defer', 'pad', 'write')]
+        return bool(nxt) and nxt[0]['k'] == 'defer' and nxt[0]['write'] and nxt[0]['fmt']
     entry_slots = [followed(s) for s in [off_w] + fixed_w]
     info['entry'] = {'read': entry_r, 'inline': inline_w, 'offset': off_w, 'fixed': fixed_w, 'slot_fmts': entry_slots,
                      'block_w': blk_w, 'block_r': blk_r}
@@ -250,11 +372,26 @@ def container_info() -> dict:
                     attrs.setdefault(t.attr, []).append(ast.unparse(st.value))
     info['read_attrs'] = attrs
     # flag 0x02 test on the reading side
-    info['read_flag_test'] = any(isinstance(n, ast.If) and ast.unparse(n.test) == 'not resource.flags & 2' for n in ast.walk(read))
+    tests = [(_seq(n), _flag_test(n.test), n) for n in ast.walk(read) if isinstance(n, ast.If) and _mentions_flags(n.test)]
+    if len(tests) != 1 or tests[0][1] is None:
+        raise TranslateError(f'VTF.read: expected exactly one understood test of the resource flags, found {[ast.unparse(t[2].test) for t in tests]}')
+    tn = tests[0][2]
+    # the branch taken when the test holds reads the block (seek to the value, unpack a length); there is no else branch
+    reads_block = any(isinstance(n, ast.Call) and ast.unparse(n.func) == 'file.seek' for b in tn.body for n in ast.walk(b)) and not tn.orelse
+    if not reads_block:
+        raise TranslateError(f'vtf.py line {tn.lineno}: the branch of the resource flag test does not read a data block')
+    info['read_flag_test'] = tests[0][1]
+    info['flag_exprs'] = {'inline': inline_w['flag_expr'], 'offset': off_w['flag_expr'], 'fixed': [f['flag_expr'] for f in fixed_w]}
+    # which test decides between the two directory entry forms on the writing side
+    info['save_entry_test'] = ''
+    for n in ast.walk(save):
+        if isinstance(n, ast.If) and n.orelse and any(_seq(x) == off_w['seq'] for b in n.body for x in ast.walk(b)) \
+                and any(_seq(x) == inline_w['seq'] for b in n.orelse for x in ast.walk(b)):
+            info['save_entry_test'] = ast.unparse(n.test)
     # sheets
     mk, fr = meth('SheetSequence', 'make_data'), meth('SheetSequence', 'from_resource')
     tb, fb = meth('TexCoord', 'to_binary'), meth('TexCoord', 'from_binary')
-    sm, sr = _sites(mk, hf), _sites(fr, hf)
+    sm, sr = _sites(mk), _sites(fr)
     info['sheet'] = {
         'head': (_one(sm, lambda s: s['k'] == 'pack' and s['fields'][:1] == ['sheet_version'], 'sheet head w'),
                  _one(sr, lambda s: s['fields'][:1] == ['sheet_version'], 'sheet head r')),
@@ -262,26 +399,26 @@ def container_info() -> dict:
                 _one(sr, lambda s: s['fields'][:1] == ['seq_num'], 'sequence head r')),
         'dur': (_one(sm, lambda s: s['k'] == 'pack' and s['fields'] == ['duration'], 'frame duration w'),
                 _one(sr, lambda s: s['fields'] == ['duration'], 'frame duration r')),
-        'tex': (_one(_sites(tb, hf), lambda s: s['k'] == 'pack', 'texcoord w'), _one(_sites(fb, hf), lambda s: s['k'] == 'unpack_from', 'texcoord r')),
+        'tex': (_one(_sites(tb), lambda s: s['k'] == 'pack', 'texcoord w'), _one(_sites(fb), lambda s: s['k'] == 'unpack_from', 'texcoord r')),
     }
     # offsets the sheet reader advances by / reads at
     incs = []
     for n in ast.walk(fr):
         if isinstance(n, ast.AugAssign) and ast.unparse(n.target) == 'offset' and isinstance(n.op, ast.Add) and isinstance(n.value, ast.Constant):
-            incs.append((n.lineno, n.value.value))
+            incs.append((_seq(n), n.value.value))
         if isinstance(n, ast.Assign) and ast.unparse(n.targets[0]) == 'offset' and isinstance(n.value, ast.Constant):
-            incs.append((n.lineno, n.value.value))
+            incs.append((_seq(n), n.value.value))
     info['sheet']['incs'] = [v for _, v in sorted(incs)]
     tex_offs = []
     for n in ast.walk(fr):
         if isinstance(n, ast.Call) and ast.unparse(n.func) == 'TexCoord.from_binary' and len(n.args) == 2:
-            tex_offs.append((n.lineno, n.col_offset, ast.unparse(n.args[1])))
+            tex_offs.append((_seq(n), 0, ast.unparse(n.args[1])))
     info['sheet']['tex_offs'] = [o for _, _, o in sorted(tex_offs)]
     # which coordinates the writer emits for version 1 / always
     wr = []
     for n in ast.walk(mk):
         if isinstance(n, ast.Call) and isinstance(n.func, ast.Attribute) and n.func.attr == 'to_binary':
-            wr.append((n.lineno, ast.unparse(n.func.value)))
+            wr.append((_seq(n), ast.unparse(n.func.value)))
     info['sheet']['tex_written'] = [o for _, o in sorted(wr)]
     v1 = [ast.unparse(n.test) for n in ast.walk(mk) if isinstance(n, ast.If)] + [ast.unparse(n.test) for n in ast.walk(fr) if isinstance(n, ast.If)]
     info['sheet']['tests'] = v1
@@ -300,12 +437,10 @@ def translate_container() -> tuple[str, dict]:
     info = container_info()
     b = lambda x: 'true' if x else 'false'
     L = ['(* GENERATED by translate/c15_container.py from src/srctools/vtf.py. Do not edit. *)',
-         'From Coq Require Import List Bool String ZArith.', 'From SV Require Import Bin.Struct Fmt.VtfContainer.', 'Import ListNotations.',
+         'From Coq Require Import List Bool String ZArith.', 'From SV Require Import Bin.Struct Fmt.VtfContainer Fmt.VtfWholeFile.', 'Import ListNotations.',
          'Local Open Scope string_scope.', '']
     def site(name, w, r):
         L.append(f'(* {name}: written at vtf.py:{w["line"]}, read at vtf.py:{r["line"]} *)')
-        ren = lambda fs: ['res_flags' if x in ('res_flags_inline', 'res_flags_offset') else x for x in fs]
-        w, r = dict(w, fields=ren(w['fields'])), dict(r, fields=ren(r['fields']))
         L.append(f'Definition gen_{name} : site := {{| w_fmt := {_s(w["fmt"])}; w_fields := {_sl(w["fields"])};')
         L.append(f'  r_fmt := {_s(r["fmt"])}; r_fields := {_sl(r["fields"])}; r_len := {r.get("len", -1)}%Z |}}.')
     for name, (w, r) in info['pairs'].items():
@@ -323,7 +458,16 @@ def translate_container() -> tuple[str, dict]:
     L.append(f'Definition gen_save_guards : list (string * Z) := [' + '; '.join(f'({_s(o)}, {v}%Z)' for o, v in info['save_guards']) + '].')
     L.append(f'Definition gen_read_guards : list (string * Z) := [' + '; '.join(f'({_s(o)}, {v}%Z)' for o, v in info['read_guards']) + '].')
     L.append(f'Definition gen_read_attrs : list (string * list string) := [' + '; '.join(f'({_s(a)}, {_sl(v)})' for a, v in sorted(info['read_attrs'].items())) + '].')
-    L.append(f'Definition gen_read_tests_flag_2 : bool := {b(info["read_flag_test"])}.')
+    fe = info['flag_exprs']
+    L.append('(* resource flags: what save() stores for an out-of-line / inline / fixed entry, and the test of read() for "data is elsewhere" *)')
+    L.append(f'Definition gen_flag_offset : fexpr := {fe["offset"]}.')
+    L.append(f'Definition gen_flag_inline : fexpr := {fe["inline"]}.')
+    L.append(f'Definition gen_flag_fixed : list fexpr := [{"; ".join(fe["fixed"])}].')
+    L.append(f'Definition gen_flag_read_test : ftest := {info["read_flag_test"]}.')
+    L.append(f'Definition gen_flagcfg : flagcfg := {{| fl_offset := gen_flag_offset; fl_inline := gen_flag_inline; fl_fixed := gen_flag_fixed; fl_test := gen_flag_read_test |}}.')
+    L.append(f'Definition gen_save_entry_test : string := {_s(info["save_entry_test"])}.')
+    L.append('(* the file-writing events of VTF.save in execution order *)')
+    L.append('Definition gen_save_events : list sev := [' + '; '.join(_save_events(info['save_fn'], info['save_sites'])) + '].')
     sh = info['sheet']
     for name in ('head', 'seq', 'dur', 'tex'):
         w, r = sh[name]
@@ -333,7 +477,7 @@ def translate_container() -> tuple[str, dict]:
     L.append(f'Definition gen_sheet_tex_written : list string := {_sl(sh["tex_written"])}.')
     L.append(f'Definition gen_sheet_tests : list string := {_sl(sh["tests"])}.')
     L.append('')
-    side = {'header_fmt': info['header_fmt'], 'save_sites': len(info['save_sites']), 'read_sites': len(info['read_sites']),
+    side = {'save_sites': len(info['save_sites']), 'read_sites': len(info['read_sites']),
             'save_guards': info['save_guards'], 'read_guards': info['read_guards']}
     return '\n'.join(L), side
 
